@@ -583,3 +583,10 @@ m('eq7-wrap-walk-for', 'callbacklist.h', """				NodePtr node = head;
 				}""", """				for(NodePtr node = head; node; node = node->next) {
 					node->counter = 1;
 				}""", 'C19,C02,C03', 'silent')
+
+# ---------------- metafunction mutants: the oracle families of witness/s_meta.cpp and s_select.cpp must notice ------------
+m('meta-inheritmixins-reversed', 'internal/eventpolicies_i.h', "	using Type = T <typename InheritMixins<Root, MixinList<Args...> >::Type>;", "	using Type = typename InheritMixins<T<Root>, MixinList<Args...> >::Type;", 'C12', 'fire', None)
+m('meta-hasequal-exact-bool', 'utilities/anyid.h', "	template <typename C> static std::true_type test(decltype(std::declval<C>() == std::declval<C>()) *);", "	template <typename C> static typename std::is_same<decltype(std::declval<C>() == std::declval<C>()), bool>::type test(int *);", 'C18', 'fire', None)
+m('meta-maxsizeof-min', 'utilities/anydata.h', "	static constexpr std::size_t value = tSize > otherSize ? tSize : otherSize;", "	static constexpr std::size_t value = tSize > otherSize ? otherSize : tSize;", 'C17', 'fire', None)
+# ShiftTuple is dead code in the library: changing it changes no behaviour and must not be reported
+m('eq-meta-shifttuple-dead-code', 'internal/typeutil_i.h', "	using Type = std::tuple<Args...>;\n};\n\ntemplate <>\nstruct ShiftTuple <std::tuple<> >", "	using Type = std::tuple<A, Args...>;\n};\n\ntemplate <>\nstruct ShiftTuple <std::tuple<> >", 'C14,C05', 'silent')
